@@ -971,6 +971,60 @@ def c06_11(ck, prog):
         raise AnalysisBroken('message accessors applied to rule destination / origin not found (%d)' % n)
 
 
+def c06_12(ck, prog, rid='C06.12'):
+    r = ck.rule(rid, 'message type names mean the specification\'s types: dbus_message_type_from_string (which gives '
+                'send_type= / receive_type= rules and type= match keys their meaning) maps method_call, method_return, '
+                'error and signal to the type codes 1, 2, 3, 4 and is the inverse of dbus_message_type_to_string', 'TAB',
+                breaks='a rule written for errors applies to method returns and vice versa: the bus denies what the '
+                'configuration allows and allows what it denies, for every policy that treats the two differently',
+                floor=4)
+    M = 'dbus/dbus-message.c'
+    SPEC = {'method_call': 1, 'method_return': 2, 'error': 3, 'signal': 4}
+    fs = prog.fn('dbus_message_type_from_string', M)
+    id2call = {c['id']: c for b, i, c in fs.calls('strcmp')}
+    got = {}
+
+    def on_exit(user, ctx, ret, ev):
+        v = ctx.const_of(ret) if ret is not None else None
+        hit = [c for cid, c in id2call.items() if ctx.result_known(cid) is False]
+        if v is None:
+            return
+        for c in hit:
+            lit = next((a['v'] for a in c['args'] if a.get('k') == 'str'), None)
+            if lit is not None:
+                got.setdefault(lit, set()).add(v)
+    Explorer(fs, on_exit=on_exit, calls={'strcmp'}, track='auto', cap=100000).run()
+    for name, code in SPEC.items():
+        key = 'from_string:%s' % name
+        if got.get(name) == {code}:
+            r.ok(key)
+        else:
+            r.violation(key, fs.name, M, fs.line, '"%s" is mapped to message type %s; the specification\'s code is %d' % (
+                name, sorted(got.get(name, [])) or 'nothing', code))
+    ts = prog.fn('dbus_message_type_to_string', M)
+    back = {}
+    for bid, blk in ts.blocks.items():
+        cs = blk.get('case')
+        if not cs:
+            continue
+        cur = blk
+        for _ in range(4):
+            rets = [ev for ev in cur['events'] if ev['ev'] == 'return' and ev.get('e') is not None and ev['e'].get('k') == 'str']
+            if rets:
+                back[cs[0]] = rets[0]['e']['v']
+                break
+            if len(cur['succs']) != 1:
+                break
+            cur = ts.blocks[cur['succs'][0]]
+    for name, code in SPEC.items():
+        key = 'to_string:%d' % code
+        if back.get(code) == name:
+            r.ok(key)
+        else:
+            r.violation(key, ts.name, M, ts.line, 'type %d is spelled "%s"; the specification calls it "%s"' % (
+                code, back.get(code), name))
+
+
 def c06_9(ck, prog):
     r = ck.rule('C06.9', 'rule order and currency: every insertion into a rule list in policy.c keeps file order '
                 '(append only), and a reload installs the new policy before the live connections\' client '
@@ -1048,6 +1102,7 @@ def run(ck):
         c06_9(ck, prog)
         c06_10(ck, prog)
         c06_11(ck, prog)
+        c06_12(ck, prog)
         # "requested reply" is what the policy's requested_reply qualifiers are evaluated against
         from rules.C09 import c09_2
         r8 = ck.rule('C06.8', 'a message is classified as a requested reply only when serial, receiver and sender '
